@@ -35,9 +35,15 @@ def c01_runs(tier, seed):
     runs = [RunSpec("gen", "Q", "plain", n),
             RunSpec("gen", "d", "plain", nf)]
     if tier == "thorough":
+        # every multiplicity vector in {1..p+2}^nd for nd = 2..5, p = 0..6
+        total = sum((p + 2) ** nd for p in range(7) for nd in range(2, 6))
         runs += [RunSpec("gen", "f", "plain", nf),
                  RunSpec("gen", "ld", "plain", nf),
-                 RunSpec("gen", "Q", "nochk", n // 4, defines=("MAXP=8",))]
+                 RunSpec("gen", "Q", "nochk", n // 4, defines=("MAXP=8",)),
+                 RunSpec("gen", "Q", "plain", total, params={"enum": 1},
+                         name="gen-enum"),
+                 RunSpec("gen", "d", "plain", total, params={"enum": 1},
+                         name="gen-enum")]
     return runs
 
 
@@ -61,7 +67,10 @@ reg(Spec(
               "route:0", "route:1", "route:2", "route:3",
               "obs:partition-of-unity", "obs:continuity"] +
              ["order:%d" % p for p in range(7)],
-    assumptions=[DYADIC, MODEL, "orders 0..6 (0..8 in the thorough run)"],
+    assumptions=[DYADIC, MODEL, "orders 0..6 (0..8 in the thorough run); the "
+                 "thorough tier also enumerates every multiplicity vector in "
+                 "{1..p+2}^nd for nd = 2..5 distinct values and p = 0..6 "
+                 "(72 044 compositions, pattern 'enumerated')"],
     evaluations="generated",
     technique="runtime monitor: exact reference-model oracle over generated "
               "knot vectors"))
